@@ -360,9 +360,14 @@ impl Iterator for Cmap12Iter<'_> {
                 // Groups should be in order and non-overlapping so make sure
                 // that the start code of next group is at least
                 // current_end.
-                if next_group.range.start < group.range.end {
-                    next_group.range = group.range.end..next_group.range.end;
-                }
+                // Also avoid the end sliding backwards when a group ends
+                // before current_end (overlapping, end < start or cut short
+                // by the limits) by taking the max of next.end and
+                // current_end as the new end, like Cmap4Iter does. Otherwise,
+                // later overlapping groups would be walked again.
+                let cur_end = group.range.end;
+                next_group.range =
+                    next_group.range.start.max(cur_end)..next_group.range.end.max(cur_end);
                 self.cur_group = Some(next_group);
             }
         }
